@@ -296,13 +296,82 @@ def generate_code_facts(tree: ast.Module) -> typing.Dict[str, bool]:
         if (isinstance(n, ast.For) and isinstance(n.iter, ast.Attribute) and isinstance(n.iter.value, ast.Name)
                 and n.iter.value.id == 'self' and n.iter.attr == '_post_processors'):
             shares = True
-    return {'generate_code_resets_uniq': resets, 'generate_code_uses_generator_pps': shares}
+    # every line post-processor is told that a new file begins, before the template generator is consumed:
+    #   for pp in self._post_processors: ... line_pps.append(_reset_line_pp(pp))
+    resets_pps = False
+    for i, st in enumerate(fn.body):
+        if i >= first_use:
+            break
+        for n in ast.walk(st):
+            if (isinstance(n, ast.For) and isinstance(n.iter, ast.Attribute) and n.iter.attr == '_post_processors'
+                    and isinstance(n.target, ast.Name)):
+                var = n.target.id
+                for m in ast.walk(n):
+                    if (isinstance(m, ast.Call) and isinstance(m.func, ast.Attribute) and m.func.attr == 'append'
+                            and isinstance(m.func.value, ast.Name) and m.func.value.id == 'line_pps' and len(m.args) == 1
+                            and isinstance(m.args[0], ast.Call) and isinstance(m.args[0].func, ast.Name)
+                            and m.args[0].func.id == '_reset_line_pp' and len(m.args[0].args) == 1
+                            and isinstance(m.args[0].args[0], ast.Name) and m.args[0].args[0].id == var):
+                        resets_pps = True
+    if resets_pps:
+        resets_pps = _reset_line_pp_calls_reset(tree)
+    return {'generate_code_resets_uniq': resets, 'generate_code_uses_generator_pps': shares,
+            'generate_code_resets_line_pps': resets_pps}
+
+
+def _reset_line_pp_calls_reset(tree: ast.Module) -> bool:
+    """_reset_line_pp(line_pp):  reset = getattr(line_pp, "reset", None); if callable(reset): reset(); return line_pp"""
+    fns = [n for n in tree.body if isinstance(n, ast.FunctionDef) and n.name == '_reset_line_pp']
+    if len(fns) != 1 or len(fns[0].args.args) != 1:
+        return False
+    arg = fns[0].args.args[0].arg
+    body = _body_without_doc(fns[0])
+    if len(body) != 3:
+        return False
+    a, b, c = body
+    ok_a = (isinstance(a, ast.Assign) and len(a.targets) == 1 and isinstance(a.targets[0], ast.Name)
+            and isinstance(a.value, ast.Call) and isinstance(a.value.func, ast.Name) and a.value.func.id == 'getattr'
+            and len(a.value.args) == 3 and isinstance(a.value.args[0], ast.Name) and a.value.args[0].id == arg
+            and isinstance(a.value.args[1], ast.Constant) and a.value.args[1].value == 'reset')
+    if not ok_a:
+        return False
+    r = a.targets[0].id
+    ok_b = (isinstance(b, ast.If) and not b.orelse and isinstance(b.test, ast.Call) and isinstance(b.test.func, ast.Name)
+            and b.test.func.id == 'callable' and len(b.test.args) == 1 and isinstance(b.test.args[0], ast.Name)
+            and b.test.args[0].id == r and len(b.body) == 1 and isinstance(b.body[0], ast.Expr)
+            and isinstance(b.body[0].value, ast.Call) and isinstance(b.body[0].value.func, ast.Name)
+            and b.body[0].value.func.id == r and not b.body[0].value.args)
+    ok_c = isinstance(c, ast.Return) and isinstance(c.value, ast.Name) and c.value.id == arg
+    return ok_b and ok_c
+
+
+def translate_lel_reset(pp_tree: ast.Module) -> typing.Optional[str]:
+    """LimitEmptyLines.reset:  a sequence of  self.<state attribute> = <int literal>  -> record update of the translated state"""
+    try:
+        fn = find_function(pp_tree, 'LimitEmptyLines', 'reset')
+    except Unsupported:
+        return None
+    if fn.decorator_list or [a.arg for a in fn.args.args] != ['self']:
+        raise Unsupported('LimitEmptyLines.reset signature')
+    fields = {'_max_empty_lines': None, '_empty_line_count': None}
+    for st in _body_without_doc(fn):
+        if not (isinstance(st, ast.Assign) and len(st.targets) == 1 and isinstance(st.targets[0], ast.Attribute)
+                and isinstance(st.targets[0].value, ast.Name) and st.targets[0].value.id == 'self'
+                and st.targets[0].attr in fields and isinstance(st.value, ast.Constant) and isinstance(st.value.value, int)
+                and not isinstance(st.value.value, bool)):
+            raise Unsupported('LimitEmptyLines.reset body')
+        fields[st.targets[0].attr] = st.value.value
+    def val(attr):
+        f = 'LimitEmptyLines_%s' % attr.lstrip('_')
+        return '%s := %s' % (f, ('(%d)%%Z' % fields[attr]) if fields[attr] is not None else '(%s self)' % f)
+    return ('Definition LimitEmptyLines_reset (self : LimitEmptyLines_state) : LimitEmptyLines_state :=\n  {| %s; %s |}.'
+            % (val('_max_empty_lines'), val('_empty_line_count')))
 
 
 def gen_uniq() -> typing.Tuple[bool, str]:
     out_path = os.path.join(gen.GEN_DIR, 'Gen_Uniq.v')
     head = (gen.HEADER % 'src/nunavut/lang/_common.py (UniqueNameGenerator), src/nunavut/jinja/__init__.py (_generate_code)'
-            + 'From Verif Require Import GenStateDict.\nOpen Scope Z_scope.\n\n')
+            + 'From Verif Require Import GenStateDict Gen_LinePP.\nOpen Scope Z_scope.\n\n')
     try:
         common = gen.parse_repo('src/nunavut/lang/_common.py')
         jj = gen.parse_repo('src/nunavut/jinja/__init__.py')
@@ -310,11 +379,22 @@ def gen_uniq() -> typing.Tuple[bool, str]:
         if params != ['key', 'base_token', 'prefix', 'suffix']:
             raise Unsupported('__call__ parameters are %s' % params)
         facts = generate_code_facts(jj)
+        note = ''
+        try:
+            lel_reset = translate_lel_reset(gen.parse_repo('src/nunavut/_postprocessors.py'))
+        except Unsupported as ex:      # fail closed for this function only: the rest of the model still builds
+            lel_reset, note = None, 'T2 failed closed on LimitEmptyLines.reset: %s' % ex
+        if lel_reset is None:
+            facts['generate_code_resets_line_pps'] = False
+            lel_reset = '(* LimitEmptyLines.reset: %s *)' % (note or 'no such method')
         facts_coq = '\n'.join('Definition %s : bool := %s.' % (k, 'true' if v else 'false') for k, v in sorted(facts.items()))
     except (Unsupported, SyntaxError, OSError, IndexError) as ex:
         gen.write_if_changed(out_path, head + '(* translator failed closed: %s *)\n' % str(ex).replace('*)', '* )'))
         return False, 'T2 failed closed on UniqueNameGenerator/_generate_code: %s' % ex
-    gen.write_if_changed(out_path, head + text + '\n\n(* structure of CodeGenerator._generate_code *)\n' + facts_coq + '\n')
+    gen.write_if_changed(out_path, head + text + '\n\n(* LimitEmptyLines.reset (called through _reset_line_pp) *)\n' + lel_reset
+                         + '\n\n(* structure of CodeGenerator._generate_code *)\n' + facts_coq + '\n')
+    if note:
+        return False, '%s (%s)' % (note, ', '.join('%s=%s' % kv for kv in sorted(facts.items())))
     return True, 'ok (%s)' % ', '.join('%s=%s' % kv for kv in sorted(facts.items()))
 
 
